@@ -9,16 +9,17 @@ COMMON_TB = [
 CONFIG = {
     "C05": {
         "quick_n": 40000, "thorough_n": 400000, "thorough_seeds": 4, "search_s": 60,
+        "also": ["C05DA"],
         "model_fn": "build / lookup / look (DFS over the implicit trie)",
         "go_entry": "denco.Router.Build + denco.Router.Lookup; denco.Mux.Build + ServeHTTP (stream M)",
         "rule": "pattern tables (1-8 keys quick, 1-40 thorough) over literals {a b ab x - = e-acute a.b c a-b}, ':name', '*wildcard', 'a=:k', mid-segment ':' and '*', shared-prefix siblings, 1 table in 12 with keys Build must reject ('#', NUL, duplicate names); 6 lookups per table: instantiations with values from {1 ab a '' a#b : * # a:b e-acute x.y %2F a=b}, mutated instantiations, the keys themselves, random bytes over {a b / : * # = - NUL}. Keys are passed to Build in the generated (random) order. Non-trivial = Build accepted a table with at least one parameterised key; distinct = distinct input lines.",
         "trusted_base": COMMON_TB + [
-            "the BASE/CHECK double array (findBase, XOR indexing, 22-bit limits) is abstracted as the child function of the implicit trie: its encoding is validated only by the correspondence stream",
+            "the BASE/CHECK double array is modelled in Model/C05DA.lean and proved to refine this trie model (Props/C05DA `router_refines`, `routerBuild_total`); the sub-check C05DA compares the real arrays (read through the verif-tagged hook Router.VerifDump) element for element",
             "Go's sort.Stable and string comparison are modelled by a stable insertion sort over a bytewise lexicographic order",
         ],
         "assumptions": ["values registered for patterns are their positions in the list given to Build",
                         "tables stay far below denco.MaxSize; SizeHint is not modelled (capacity only)"],
-        "partial": ["the BASE/CHECK double array is abstracted as the trie's child function (validated by the correspondence only)"],
+        "partial": [],
     },
     "C07": {
         "quick_n": 20000, "thorough_n": 400000, "thorough_seeds": 4, "search_s": 60,
@@ -817,8 +818,41 @@ CONFIG['C12'] = {'assumptions': ['a request has either a body parameter or form 
                   "the scripted bodies and upload sources are the harness's own (their semantics is defined on both sides)",
                   'goroutine accounting reads runtime.Stack; elapsed time is wall-clock: support, not proof']}
 
+CONFIG['C05DA'] = {'assumptions': ['values registered for patterns are their positions in the list given to Build',
+                 'tables stay below denco.MaxSize (the two size errors are modelled but not reachable by the generator); SizeHint is capacity only'],
+ 'go_entry': 'denco.Router.Build + Router.VerifDump (hook, build tag verif) + denco.Router.Lookup',
+ 'model_fn': 'C05DA.routerBuild / routerLookup (build, arrange, findBase, makeSiblings, lookup on the BASE/CHECK array)',
+ 'partial': ['the two size refusals of Build (more than MaxSize records; a BASE beyond MaxSize) are modelled and allowed by routerBuild_total, but '
+             'when exactly they arise is not characterised (not reachable by the generator)',
+             "C05.build = errDupName => the array Build refuses too is proved only in the direction dupName(array) => errDupName(trie) plus 'array "
+             "accepts => trie accepts' (trie_accepts); that the array Build reports dupName rather than a size refusal first is not claimed"],
+ 'quick_n': 20000,
+ 'rule': 'deepening of C05: one case = one pattern table (1-10 keys quick, 1-60 thorough, 1 in 50 thorough tables 200-600 keys) + 2-6 looked-up '
+         "paths. Keys need NOT start with '/': an optional 1-2 byte head, then 1-4 segments of literals drawn from one of 7 alphabets chosen to "
+         'provoke XOR coincidences between sibling bytes ({a b}, {, - . /}, {0 1 2 3}, {01 02 03}, their union, a-z, 24 control/high bytes), '
+         "':name', '*wildcard', 'x=:k', mid-segment ':'/'*', prefix-sharing siblings (cut at any byte), 1 table in 15 with keys Build must reject. "
+         "agree = the REAL bc array (every uint32) and node table equal the model's element for element and every real Lookup equals the model's "
+         'array lookup; spec = the REAL arrays satisfy the abstract invariant reprB w.r.t. the trie of C05 and every real answer equals the trie '
+         "model's (C05.lookup). Non-trivial = at least one parameterised key; distinct = distinct input lines.",
+ 'search_s': 60,
+ 'thorough_n': 40000,
+ 'thorough_seeds': 3,
+ 'trusted_base': ['reading of the property text into the Lean `Spec` (human step, RtVerif/Model/<id>.lean)',
+                  'correspondence check (differential: Go harness /verif/harness -> protocol lines -> compiled Lean driver rtdriver evaluating Model '
+                  'and Spec); coverage bounded by the generators',
+                  "factgen (go/ast extraction of constants/tables into RtVerif/Gen/Facts.lean) and the driver's line parser",
+                  'an element of bc is modelled as a record (BASE, 2 flags, CHECK) with Elem.encode giving the uint32; SetBase/SetCheck OR into it '
+                  'as in Go; truncation to 22 bits is modelled by `% 4194304`',
+                  'records carry their remaining key (Key[depth:]) instead of (Key, depth): all records of one build call share Key[:depth]',
+                  'Go slices/maps as immutable lists (sub-slices of the siblings are disjoint; appends to params beyond len are not shared between '
+                  'alternatives that succeed); sort.Stable = stable insertion sort',
+                  'recursion of build/lookup and the findBase loop run on fuel in the model (Go: unbounded recursion / loop); routerBuild_total, '
+                  'routerBuild_outcomes and lookup_total_da prove the fuel provided is never exhausted; Router.fuel (total key length + 1, set by '
+                  "the model's Build) is a ghost field without Go counterpart",
+                  'the hook Router.VerifDump (export_verif.go, add-only, build tag verif) copies bc and node out of the router']}
+
 # properties not claimed (with the reason) and hook commits in /repo (none so far: no hooks needed)
 # built but not yet claimed (with the reason shown in MANIFEST.not_applicable)
-PENDING = {"C12", "C05DA"}
+PENDING = {"C12", "C05DA"}   # C05DA is a sub-check of C05 ("also"), never claimed on its own
 NOT_APPLICABLE = {"C12": "model and proofs are built (23 theorems) and both defects are repaired, but the correspondence is being re-aligned with the C11 repair of the same code (pipe-write pattern of the multipart goroutine); claimed again once ./check C12 is green"}
-HOOK_COMMITS = []
+HOOK_COMMITS = ["dd54fd898b621ffdd89b1e68324b7617730e9ca3"]
